@@ -167,3 +167,13 @@ def l_c10_recon(conv: Converter, cmap: dict, umap: dict, extra: tuple):
         except ValueError:
             pass
         assert conv_state(conv) == before_state
+
+
+@invariant("reconciliation._get_uri_preferred_or_synonym", loop=0)
+def inv_uri_pref(upgrades, _i, _xs):
+    return all(s not in upgrades for s in _xs[:_i])
+
+
+@invariant("reconciliation._get_curie_preferred_or_synonym", loop=0)
+def inv_curie_pref(upgrades, _i, _xs):
+    return all(s not in upgrades for s in _xs[:_i])
